@@ -90,7 +90,7 @@ def FS.getD (fs : FS) (k : Bytes) : Nat := (alGet fs.lookup k).getD 0
 def newDir (n : Bytes) : Inode :=
   { kind := .dir, name := n, link := [], children := some [], data := none }
 
-def emptyInode : Inode := { kind := .reg, name := [], link := [], children := none, data := none }
+def emptyInode : Inode := { kind := .reg, name := dotP, link := [], children := none, data := none }
 
 def FS.ino (fs : FS) (i : Nat) : Inode := fs.inodes.getD i emptyInode
 
